@@ -59,6 +59,9 @@ func NewIndex(fasta io.Reader) (Index, error) {
 		b := bytes.TrimSpace(sc.Bytes())
 		if len(b) == 0 {
 			offset += int64(len(sc.Bytes()))
+			// Blank lines may only separate records: the index
+			// cannot describe a sequence with a gap in it.
+			wantDescLine = true
 			continue
 		}
 		if bytes.Equal(b, []byte{'>'}) {
